@@ -6,6 +6,7 @@ package rules
 import (
 	"fmt"
 	"go/ast"
+	"go/token"
 	"go/types"
 	"sort"
 	"strings"
@@ -282,6 +283,79 @@ func (c *Ctx) derivedFrom(fi *core.FuncInfo, e ast.Expr, po *types.Var, depth in
 	return found
 }
 
+// mayChangeBetween: between the two positions, the variable the key expression is rooted at is reassigned, written
+// through, or handed (itself or its address) to a call — so the expression, evaluated again, may yield another
+// value (sch.Ref.String() before and after spec.ExpandSchema(sch, …)).
+func (c *Ctx) mayChangeBetween(fi *core.FuncInfo, key ast.Expr, from, to token.Pos) bool {
+	info := c.info(fi)
+	// x.f.Method() reads x
+	k := core.Unparen(key)
+	if call, ok := k.(*ast.CallExpr); ok && len(call.Args) == 0 {
+		if sel, ok := core.Unparen(call.Fun).(*ast.SelectorExpr); ok {
+			k = sel.X
+		}
+	}
+	root := rootIdent(k)
+	if root == nil {
+		return false
+	}
+	ro := core.ObjOf(info, root)
+	if ro == nil {
+		return false
+	}
+	changed := false
+	ast.Inspect(fi.Decl.Body, func(n ast.Node) bool {
+		if n == nil || changed {
+			return false
+		}
+		if n.Pos() > to || n.End() < from {
+			return true
+		}
+		switch x := n.(type) {
+		case *ast.AssignStmt:
+			if x.Pos() <= from || x.Pos() >= to {
+				return true
+			}
+			for _, l := range x.Lhs {
+				if id := rootIdent(l); id != nil && core.ObjOf(info, id) == ro && x.Tok != token.DEFINE {
+					changed = true
+				}
+			}
+		case *ast.CallExpr:
+			if x.Pos() <= from || x.Pos() >= to {
+				return true
+			}
+			for _, a := range x.Args {
+				a = core.Unparen(a)
+				if u, ok := a.(*ast.UnaryExpr); ok && u.Op == token.AND {
+					a = core.Unparen(u.X)
+				}
+				if id, ok := a.(*ast.Ident); ok && core.ObjOf(info, id) == ro {
+					if t := info.TypeOf(id); t != nil && (core.IsPointer(t) || a != core.Unparen(x.Args[0]) || true) {
+						// a pointer (or an address) lets the callee write through it; a plain value does not
+						if core.IsPointer(t) || isAddrArg(x, id) {
+							changed = true
+						}
+					}
+				}
+			}
+		}
+		return true
+	})
+	return changed
+}
+
+func isAddrArg(call *ast.CallExpr, id *ast.Ident) bool {
+	for _, a := range call.Args {
+		if u, ok := core.Unparen(a).(*ast.UnaryExpr); ok && u.Op == token.AND {
+			if x, ok := core.Unparen(u.X).(*ast.Ident); ok && x == id {
+				return true
+			}
+		}
+	}
+	return false
+}
+
 // visitedGuarded: the call is dominated by a negative membership test on a map that the function extends.
 func (c *Ctx) visitedGuarded(fi *core.FuncInfo, call *ast.CallExpr) bool {
 	info := c.info(fi)
@@ -308,6 +382,10 @@ func (c *Ctx) visitedGuarded(fi *core.FuncInfo, call *ast.CallExpr) bool {
 			for _, l := range as.Lhs {
 				ix, ok := core.Unparen(l).(*ast.IndexExpr)
 				if !ok || !core.IsMap(info.TypeOf(ix.X)) || !sameExpr(ix.Index, key) {
+					continue
+				}
+				// same spelling is the same value only if nothing in between can change what the key is read from
+				if c.mayChangeBetween(fi, key, cd.Expr.Pos(), as.Pos()) {
 					continue
 				}
 				if sameExpr(ix.X, m) {
